@@ -123,4 +123,429 @@ theorem addFast_ok (nm : Bool) (cpa cpb B : Nat) (l : List Val) (hwf : ∀ v ∈
             omega
     · cases h
 
+/-- the body of `op_add` after the constants have been chosen -/
+def addBody (cfg : Cfg) (nm : Bool) (base cpa cpb m : Nat) (args : List Val) (c : Ctr) :
+    Except Err (Nat × Val × Ctr) :=
+  let fast : Except Err (Option (Nat × Nat)) :=
+    if cfg.fastpath then addFast nm cpa cpb m args base 0 else .ok none
+  match fast with
+  | .error e => .error e
+  | .ok (some (cost, total)) =>
+    match allocAtom c (u64Bytes total) with
+    | .error e => .error e
+    | .ok (v, c') => .ok (mallocCost cost v, v, c')
+  | .ok none =>
+    match addGeneric nm cpa cpb m args base 0 0 with
+    | .error e => .error e
+    | .ok (cost, total) =>
+      match allocNumber c total with
+      | .error e => .error e
+      | .ok (v, c') => .ok (mallocCost cost v, v, c')
+
+theorem opAdd_eq (cfg : Cfg) (flags m : Nat) (input : Val) (c : Ctr) :
+    opAdd cfg flags m input c =
+      addBody cfg (newModel flags) (arithCosts flags).1 (arithCosts flags).2.1 (arithCosts flags).2.2 m
+        (argList input) c := by
+  unfold opAdd addBody
+  rfl
+
+theorem addBody_ok (cfg : Cfg) (nm : Bool) (base cpa cpb m : Nat) (args : List Val)
+    (hw : ∀ v ∈ args, v.wf = true) (c : Ctr) (cost : Nat) (v : Val) (c' : Ctr)
+    (h : addBody cfg nm base cpa cpb m args c = .ok (cost, v, c')) :
+    cost = base + cpa * args.length + cpb *
+      (if nm then Spec.Cost.sumMax args (Spec.Cost.addAccs args) else Spec.Cost.sumLen args)
+      + Spec.Cost.malloc v := by
+  unfold addBody at h
+  simp only at h
+  split at h
+  · cases h
+  · rename_i cost0 total hfast
+    split at hfast
+    · split at h
+      · cases h
+      · rename_i v0 c1 ha
+        simp only [Except.ok.injEq, Prod.mk.injEq] at h
+        obtain ⟨rfl, rfl, _⟩ := h
+        rw [allocAtom_ok _ _ _ _ ha, mallocCost_mkAtom, addFast_ok _ _ _ _ _ hw _ _ _ _ hfast]
+        simp [Spec.Cost.addAccs]
+    · cases hfast
+  · split at h
+    · cases h
+    · rename_i cost0 total hgen
+      split at h
+      · cases h
+      · rename_i v0 c1 ha
+        simp only [Except.ok.injEq, Prod.mk.injEq] at h
+        obtain ⟨rfl, rfl, _⟩ := h
+        rw [allocNumber_ok _ _ _ _ ha, mallocCost_mkAtom, addGeneric_ok _ _ _ _ _ hw _ _ _ _ _ hgen]
+        simp [Spec.Cost.addAccs]
+
+theorem cost_opAdd (cfg : Cfg) : CostOK (opAdd cfg) Spec.Cost.opAdd := by
+  intro flags m args c cost v c' hwf h
+  rw [opAdd_eq] at h
+  rw [addBody_ok _ _ _ _ _ _ _ (wf_argList args hwf) _ _ _ _ h]
+  cases hnm : newModel flags <;>
+    simp [arithCosts, hnm, Spec.Cost.opAdd, Spec.Cost.ARITH_BASE, Spec.Cost.ARITH_PER_ARG,
+      Spec.Cost.ARITH_PER_BYTE, Spec.Cost.NEW_ARITH_PER_ARG, Spec.Cost.NEW_ARITH_PER_BYTE,
+      Gen.ARITH_BASE_COST, Gen.ARITH_COST_PER_ARG, Gen.ARITH_COST_PER_BYTE,
+      Gen.NEW_ARITH_COST_PER_ARG, Gen.NEW_ARITH_COST_PER_BYTE]
+
+/-! ### subtract -/
+
+theorem subGeneric_later (nm : Bool) (cpa cpb B : Nat) (l : List Val) (hwf : ∀ v ∈ l, v.wf = true)
+    (cost : Nat) (acc small : Int) (cost' : Nat) (total : Int)
+    (h : subGeneric nm cpa cpb B l cost acc small false = .ok (cost', total)) :
+    cost' = cost + cpa * l.length + cpb *
+      (if nm then Spec.Cost.sumMax l (Spec.Cost.partials (· - ·) small (l.map Spec.Cost.int))
+       else Spec.Cost.sumLen l) := by
+  induction l generalizing cost acc small with
+  | nil =>
+    simp only [subGeneric] at h; injection h with h; injection h with h1 _
+    cases nm <;> simp [← h1, sumMax_nil, sumLen_nil]
+  | cons a t ih =>
+    have ha : a.wf = true := hwf a (by simp)
+    have ht : ∀ v ∈ t, v.wf = true := fun v hv => hwf v (by simp [hv])
+    simp only [subGeneric, Bool.false_eq_true, if_false] at h
+    split at h
+    · cases h
+    · split at h
+      · rename_i buf hn
+        obtain ⟨hlen, hval⟩ := node_buffer _ _ hn
+        split at h
+        · cases h
+        · cases nm with
+          | false =>
+            simp only [Bool.false_eq_true, if_false] at h ⊢
+            rw [ih ht _ _ _ h]
+            simp only [Bool.false_eq_true, if_false, sumLen_cons, List.length_cons, hlen, Nat.mul_add]
+            rw [Nat.mul_comm (Spec.Cost.len a) cpb]
+            omega
+          | true =>
+            simp only [if_true] at h ⊢
+            rw [ih ht _ _ _ h]
+            have e : small + -1 * decodeInt buf = small - Spec.Cost.int a := by rw [hval]; omega
+            simp only [if_true, List.map_cons, Spec.Cost.partials, sumMax_cons, List.length_cons, hlen, e,
+              limbs_eq, Nat.mul_add]
+            rw [Nat.max_comm, Nat.mul_comm (max _ _) cpb]
+            omega
+      · rename_i val hn
+        obtain ⟨hlen, hval⟩ := node_u32 _ _ ha hn
+        split at h
+        · cases h
+        · cases nm with
+          | false =>
+            simp only [Bool.false_eq_true, if_false] at h ⊢
+            rw [ih ht _ _ _ h]
+            simp only [Bool.false_eq_true, if_false, sumLen_cons, List.length_cons, hlen, Nat.mul_add]
+            rw [Nat.mul_comm (Spec.Cost.len a) cpb]
+            omega
+          | true =>
+            simp only [if_true] at h ⊢
+            rw [ih ht _ _ _ h]
+            have e : small + -1 * (val : Int) = small - Spec.Cost.int a := by rw [hval]; omega
+            simp only [if_true, List.map_cons, Spec.Cost.partials, sumMax_cons, List.length_cons, hlen, e,
+              limbs_eq, Nat.mul_add]
+            rw [Nat.max_comm, Nat.mul_comm (max _ _) cpb]
+            omega
+      · cases h
+
+theorem subAccs_cons (a : Val) (t : List Val) :
+    Spec.Cost.subAccs (a :: t) = 0 :: Spec.Cost.partials (· - ·) (Spec.Cost.int a) (t.map Spec.Cost.int) := rfl
+
+theorem subGeneric_ok (nm : Bool) (cpa cpb B : Nat) (l : List Val) (hwf : ∀ v ∈ l, v.wf = true)
+    (cost : Nat) (cost' : Nat) (total : Int)
+    (h : subGeneric nm cpa cpb B l cost 0 0 true = .ok (cost', total)) :
+    cost' = cost + cpa * l.length + cpb *
+      (if nm then Spec.Cost.sumMax l (Spec.Cost.subAccs l) else Spec.Cost.sumLen l) := by
+  cases l with
+  | nil =>
+    simp only [subGeneric] at h; injection h with h; injection h with h1 _
+    cases nm <;> simp [← h1, sumMax_nil, sumLen_nil]
+  | cons a t =>
+    have ha : a.wf = true := hwf a (by simp)
+    have ht : ∀ v ∈ t, v.wf = true := fun v hv => hwf v (by simp [hv])
+    simp only [subGeneric, if_true] at h
+    split at h
+    · cases h
+    · split at h
+      · rename_i buf hn
+        obtain ⟨hlen, hval⟩ := node_buffer _ _ hn
+        split at h
+        · cases h
+        · cases nm with
+          | false =>
+            simp only [Bool.false_eq_true, if_false] at h ⊢
+            rw [subGeneric_later _ _ _ _ _ ht _ _ _ _ _ h]
+            simp only [Bool.false_eq_true, if_false, sumLen_cons, List.length_cons, hlen, Nat.mul_add]
+            rw [Nat.mul_comm (Spec.Cost.len a) cpb]
+            omega
+          | true =>
+            simp only [if_true] at h ⊢
+            rw [subGeneric_later _ _ _ _ _ ht _ _ _ _ _ h]
+            have e : (0 : Int) + 1 * decodeInt buf = Spec.Cost.int a := by rw [hval]; omega
+            simp only [if_true, subAccs_cons, sumMax_cons, List.length_cons, hlen, e, limbs_eq, Nat.mul_add]
+            rw [Nat.max_comm, Nat.mul_comm (max _ _) cpb]
+            omega
+      · rename_i val hn
+        obtain ⟨hlen, hval⟩ := node_u32 _ _ ha hn
+        split at h
+        · cases h
+        · cases nm with
+          | false =>
+            simp only [Bool.false_eq_true, if_false] at h ⊢
+            rw [subGeneric_later _ _ _ _ _ ht _ _ _ _ _ h]
+            simp only [Bool.false_eq_true, if_false, sumLen_cons, List.length_cons, hlen, Nat.mul_add]
+            rw [Nat.mul_comm (Spec.Cost.len a) cpb]
+            omega
+          | true =>
+            simp only [if_true] at h ⊢
+            rw [subGeneric_later _ _ _ _ _ ht _ _ _ _ _ h]
+            have e : (0 : Int) + 1 * (val : Int) = Spec.Cost.int a := by rw [hval]; omega
+            simp only [if_true, subAccs_cons, sumMax_cons, List.length_cons, hlen, e, limbs_eq, Nat.mul_add]
+            rw [Nat.max_comm, Nat.mul_comm (max _ _) cpb]
+            omega
+      · cases h
+
+theorem subFast_later (nm : Bool) (cpa cpb B : Nat) (l : List Val) (hwf : ∀ v ∈ l, v.wf = true)
+    (cost : Nat) (total : Int) (cost' : Nat) (total' : Int)
+    (h : subFast nm cpa cpb B l cost total false = .ok (some (cost', total'))) :
+    cost' = cost + cpa * l.length + cpb *
+      (if nm then Spec.Cost.sumMax l (Spec.Cost.partials (· - ·) total (l.map Spec.Cost.int))
+       else Spec.Cost.sumLen l) := by
+  induction l generalizing cost total with
+  | nil =>
+    simp only [subFast] at h; injection h with h; injection h with h; injection h with h1 _
+    cases nm <;> simp [← h1, sumMax_nil, sumLen_nil]
+  | cons a t ih =>
+    have ha : a.wf = true := hwf a (by simp)
+    have ht : ∀ v ∈ t, v.wf = true := fun v hv => hwf v (by simp [hv])
+    simp only [subFast, Bool.false_eq_true, if_false] at h
+    split at h
+    · rename_i val hn
+      obtain ⟨hlen, hval⟩ := node_u32 _ _ ha hn
+      split at h
+      · cases h
+      · split at h
+        · cases h
+        · cases nm with
+          | false =>
+            simp only [Bool.false_eq_true, if_false] at h ⊢
+            rw [ih ht _ _ h]
+            simp only [Bool.false_eq_true, if_false, sumLen_cons, List.length_cons, hlen, Nat.mul_add]
+            rw [Nat.mul_comm (Spec.Cost.len a) cpb]
+            omega
+          | true =>
+            simp only [if_true] at h ⊢
+            rw [ih ht _ _ h]
+            simp only [if_true, List.map_cons, Spec.Cost.partials, sumMax_cons, List.length_cons, hlen, ← hval,
+              limbsI64_eq, Nat.mul_add]
+            rw [Nat.max_comm, Nat.mul_comm (max _ _) cpb]
+            omega
+    · cases h
+
+theorem subFast_ok (nm : Bool) (cpa cpb B : Nat) (l : List Val) (hwf : ∀ v ∈ l, v.wf = true)
+    (cost : Nat) (cost' : Nat) (total' : Int)
+    (h : subFast nm cpa cpb B l cost 0 true = .ok (some (cost', total'))) :
+    cost' = cost + cpa * l.length + cpb *
+      (if nm then Spec.Cost.sumMax l (Spec.Cost.subAccs l) else Spec.Cost.sumLen l) := by
+  cases l with
+  | nil =>
+    simp only [subFast] at h; injection h with h; injection h with h; injection h with h1 _
+    cases nm <;> simp [← h1, sumMax_nil, sumLen_nil]
+  | cons a t =>
+    have ha : a.wf = true := hwf a (by simp)
+    have ht : ∀ v ∈ t, v.wf = true := fun v hv => hwf v (by simp [hv])
+    simp only [subFast, if_true] at h
+    split at h
+    · rename_i val hn
+      obtain ⟨hlen, hval⟩ := node_u32 _ _ ha hn
+      split at h
+      · cases h
+      · cases nm with
+        | false =>
+          simp only [Bool.false_eq_true, if_false] at h ⊢
+          rw [subFast_later _ _ _ _ _ ht _ _ _ _ h]
+          simp only [Bool.false_eq_true, if_false, sumLen_cons, List.length_cons, hlen, Nat.mul_add]
+          rw [Nat.mul_comm (Spec.Cost.len a) cpb]
+          omega
+        | true =>
+          simp only [if_true] at h ⊢
+          rw [subFast_later _ _ _ _ _ ht _ _ _ _ h]
+          simp only [if_true, subAccs_cons, sumMax_cons, List.length_cons, hlen, ← hval, limbsI64_eq, Nat.mul_add]
+          rw [Nat.max_comm, Nat.mul_comm (max _ _) cpb]
+          omega
+    · cases h
+
+/-- the body of `op_subtract` after the constants have been chosen -/
+def subBody (cfg : Cfg) (nm : Bool) (base cpa cpb m : Nat) (args : List Val) (c : Ctr) :
+    Except Err (Nat × Val × Ctr) :=
+  let fast : Except Err (Option (Nat × Int)) :=
+    if cfg.fastpath then subFast nm cpa cpb m args base 0 true else .ok none
+  match fast with
+  | .error e => .error e
+  | .ok (some (cost, total)) =>
+    match allocAtom c (i64Bytes total) with
+    | .error e => .error e
+    | .ok (v, c') => .ok (mallocCost cost v, v, c')
+  | .ok none =>
+    match subGeneric nm cpa cpb m args base 0 0 true with
+    | .error e => .error e
+    | .ok (cost, total) =>
+      match allocNumber c total with
+      | .error e => .error e
+      | .ok (v, c') => .ok (mallocCost cost v, v, c')
+
+theorem opSubtract_eq (cfg : Cfg) (flags m : Nat) (input : Val) (c : Ctr) :
+    opSubtract cfg flags m input c =
+      subBody cfg (newModel flags) (arithCosts flags).1 (arithCosts flags).2.1 (arithCosts flags).2.2 m
+        (argList input) c := by
+  unfold opSubtract subBody
+  rfl
+
+theorem subBody_ok (cfg : Cfg) (nm : Bool) (base cpa cpb m : Nat) (args : List Val)
+    (hw : ∀ v ∈ args, v.wf = true) (c : Ctr) (cost : Nat) (v : Val) (c' : Ctr)
+    (h : subBody cfg nm base cpa cpb m args c = .ok (cost, v, c')) :
+    cost = base + cpa * args.length + cpb *
+      (if nm then Spec.Cost.sumMax args (Spec.Cost.subAccs args) else Spec.Cost.sumLen args)
+      + Spec.Cost.malloc v := by
+  unfold subBody at h
+  simp only at h
+  split at h
+  · cases h
+  · rename_i cost0 total hfast
+    split at hfast
+    · split at h
+      · cases h
+      · rename_i v0 c1 ha
+        simp only [Except.ok.injEq, Prod.mk.injEq] at h
+        obtain ⟨rfl, rfl, _⟩ := h
+        rw [allocAtom_ok _ _ _ _ ha, mallocCost_mkAtom, subFast_ok _ _ _ _ _ hw _ _ _ hfast]
+    · cases hfast
+  · split at h
+    · cases h
+    · rename_i cost0 total hgen
+      split at h
+      · cases h
+      · rename_i v0 c1 ha
+        simp only [Except.ok.injEq, Prod.mk.injEq] at h
+        obtain ⟨rfl, rfl, _⟩ := h
+        rw [allocNumber_ok _ _ _ _ ha, mallocCost_mkAtom, subGeneric_ok _ _ _ _ _ hw _ _ _ hgen]
+
+theorem cost_opSubtract (cfg : Cfg) : CostOK (opSubtract cfg) Spec.Cost.opSubtract := by
+  intro flags m args c cost v c' hwf h
+  rw [opSubtract_eq] at h
+  rw [subBody_ok _ _ _ _ _ _ _ (wf_argList args hwf) _ _ _ _ h]
+  cases hnm : newModel flags <;>
+    simp [arithCosts, hnm, Spec.Cost.opSubtract, Spec.Cost.ARITH_BASE, Spec.Cost.ARITH_PER_ARG,
+      Spec.Cost.ARITH_PER_BYTE, Spec.Cost.NEW_ARITH_PER_ARG, Spec.Cost.NEW_ARITH_PER_BYTE,
+      Gen.ARITH_BASE_COST, Gen.ARITH_COST_PER_ARG, Gen.ARITH_COST_PER_BYTE,
+      Gen.NEW_ARITH_COST_PER_ARG, Gen.NEW_ARITH_COST_PER_BYTE]
+
+/-! ### multiply -/
+
+theorem mulLoop_ok (cfg : Cfg) (flags B D : Nat) (l : List Val) (hwf : ∀ v ∈ l, v.wf = true)
+    (cost : Nat) (total : Int) (l0 : Nat) (cost' : Nat) (total' : Int)
+    (h : mulLoop cfg flags B D l cost total l0 = .ok (cost', total')) :
+    cost' = cost + Spec.Cost.mulSteps D l0 total l := by
+  induction l generalizing cost total l0 with
+  | nil => simp only [mulLoop] at h; injection h with h; injection h with h1 _; simp [← h1, Spec.Cost.mulSteps]
+  | cons a t ih =>
+    have ha : a.wf = true := hwf a (by simp)
+    have ht : ∀ v ∈ t, v.wf = true := fun v hv => hwf v (by simp [hv])
+    simp only [mulLoop] at h
+    split at h
+    · cases h
+    · rename_i cost2 total2 hstep
+      have hs : cost2 = cost + Spec.Cost.mulStep D l0 (Spec.Cost.len a) ∧ total2 = total * Spec.Cost.int a := by
+        split at hstep
+        · split at hstep
+          · rename_i buf hn
+            obtain ⟨hlen, hval⟩ := node_buffer _ _ hn
+            split at hstep
+            · cases hstep
+            · split at hstep
+              · cases hstep
+              · injection hstep with hstep; injection hstep with h1 h2
+                rw [← h1, ← h2, hlen, hval]
+                simp only [Spec.Cost.mulStep, Spec.Cost.MUL_PER_OP, Spec.Cost.MUL_LINEAR_PER_BYTE,
+                  Gen.MUL_COST_PER_OP, Gen.MUL_LINEAR_COST_PER_BYTE]
+                constructor <;> first | omega | rfl | trivial
+          · rename_i val hn
+            obtain ⟨hlen, hval⟩ := node_u32 _ _ ha hn
+            split at hstep
+            · cases hstep
+            · injection hstep with hstep; injection hstep with h1 h2
+              rw [← h1, ← h2, hlen, hval]
+              simp only [Spec.Cost.mulStep, Spec.Cost.MUL_PER_OP, Spec.Cost.MUL_LINEAR_PER_BYTE,
+                Gen.MUL_COST_PER_OP, Gen.MUL_LINEAR_COST_PER_BYTE]
+              constructor <;> first | omega | rfl | trivial
+          · cases hstep
+        · split at hstep
+          · cases hstep
+          · rename_i n1 l1 hint
+            obtain ⟨hlen, hval⟩ := intAtom_ok _ _ _ _ ha hint
+            split at hstep
+            · cases hstep
+            · split at hstep
+              · cases hstep
+              · injection hstep with hstep; injection hstep with h1 h2
+                rw [← h1, ← h2, hlen, hval]
+                simp only [Spec.Cost.mulStep, Spec.Cost.MUL_PER_OP, Spec.Cost.MUL_LINEAR_PER_BYTE,
+                  Gen.MUL_COST_PER_OP, Gen.MUL_LINEAR_COST_PER_BYTE]
+                constructor <;> first | omega | rfl | trivial
+      split at h
+      · cases h
+      · rw [ih ht _ _ _ h, hs.1, hs.2, Spec.Cost.mulSteps, limbs_eq]
+        omega
+
+theorem cost_opMultiply (cfg : Cfg) : CostOK (opMultiply cfg) Spec.Cost.opMultiply := by
+  intro flags m args c cost v c' hwf h
+  have hw := wf_argList args hwf
+  unfold opMultiply at h
+  simp only at h
+  split at h
+  · cases h
+  · rename_i cost0 total hr
+    split at h
+    · cases h
+    · rename_i v0 c1 ha
+      simp only [Except.ok.injEq, Prod.mk.injEq] at h
+      obtain ⟨rfl, rfl, _⟩ := h
+      rw [allocNumber_ok _ _ _ _ ha, mallocCost_mkAtom]
+      congr 1
+      split at hr
+      · rename_i hnil
+        injection hr with hr; injection hr with h1 _
+        rw [hnil, ← h1]
+        cases newModel flags <;> simp [Spec.Cost.opMultiply, Spec.Cost.NEW_MUL_BASE, Spec.Cost.MUL_BASE,
+          Gen.NEW_MUL_BASE_COST, Gen.MUL_BASE_COST]
+      · rename_i arg rest hcons
+        rw [hcons] at hw
+        have harg : arg.wf = true := hw arg (by simp)
+        have hrest : ∀ v ∈ rest, v.wf = true := fun v hv => hw v (by simp [hv])
+        rw [hcons]
+        split at hr
+        · cases hr
+        · rename_i tot l0 hint
+          obtain ⟨hlen, hval⟩ := intAtom_ok _ _ _ _ harg hint
+          split at hr
+          · cases hr
+          · split at hr
+            · cases hr
+            · rename_i c1' hc1
+              rw [mulLoop_ok _ _ _ _ _ hrest _ _ _ _ _ hr, hlen, hval]
+              cases hnm : newModel flags
+              · simp only [hnm, Bool.false_eq_true, if_false] at hc1 ⊢
+                injection hc1 with hc1
+                simp only [← hc1, Spec.Cost.opMultiply, Bool.false_eq_true, if_false, Spec.Cost.MUL_BASE,
+                  Spec.Cost.MUL_SQUARE_DIVIDER, Gen.MUL_BASE_COST, Gen.MUL_SQUARE_COST_PER_BYTE_DIVIDER]
+              · simp only [hnm, if_true] at hc1 ⊢
+                split at hc1
+                · cases hc1
+                · injection hc1 with hc1
+                  simp only [← hc1, hlen, Spec.Cost.opMultiply, if_true, Spec.Cost.NEW_MUL_BASE,
+                    Spec.Cost.NEW_MUL_SQUARE_DIVIDER, Spec.Cost.MUL_LINEAR_PER_BYTE, Gen.NEW_MUL_BASE_COST,
+                    Gen.NEW_MUL_SQUARE_COST_PER_BYTE_DIVIDER, Gen.MUL_LINEAR_COST_PER_BYTE]
+                  omega
+
 end Clvm.Interp
